@@ -159,3 +159,23 @@ fn c03_ci_order_independent_n20_bounded() {
     assert!(matches!(idx, Ok(Interval::TwoSided(0, _))), "this configuration is meant to exercise rank 0");
     kani::cover!(a == 0 && b == 19);
 }
+
+// ---- C11: documented panics of the sort-based entry points: incomparable elements, capacity overflow
+#[kani::proof]
+#[kani::should_panic]
+#[kani::unwind(8)]
+#[kani::stub(crate::stats::z_value, z_const)]
+fn c11_quantile_ci_incomparable_panics() {
+    let data: [f32; 4] = [1.0, f32::NAN, 3.0, 2.0];
+    let _ = ci(Confidence::TwoSided(0.5), &data, 0.5);
+    kani::cover!(true, "REACH_AFTER_REJECT");
+}
+#[kani::proof]
+#[kani::should_panic]
+#[kani::unwind(8)]
+#[kani::stub(crate::stats::z_value, z_const)]
+fn c11_quantile_ci_max_size_capacity_panics() {
+    let data: [u8; 5] = kani::any();
+    let _ = ci_max_size::<u8, _, 4>(Confidence::TwoSided(0.5), &data, 0.5);
+    kani::cover!(true, "REACH_AFTER_REJECT");
+}
